@@ -2250,3 +2250,94 @@ Proof.
   pose proof (cntT_le N own _ t I' ltac:(rewrite step_nthr; exact Ht)).
   unfold nstep; cbn [nmx]. destruct (_ || _); [lia|]. destruct (inqN _ _ _); lia.
 Qed.
+
+(* ---------------- the statements used by Properties_C10.v ---------------- *)
+Lemma bypass_bound_N N own progs x : progs_ok N own progs -> nreach true progs x ->
+  (forall g, nbyp x g <= 2 * (nmx x g - 1) + nstl x g /\ nmx x g <= N) /\
+  (forall t g, t < nthr (nbase x) -> In g (SqN (nbase x) t) ->
+     nbyp x g + length (FqN (nbase x) t) + 1 <= nmx x g + nstl x g) /\
+  (forall t p g, t < nthr (nbase x) -> nth_error (FqN (nbase x) t) p = Some g ->
+     nbyp x g + p + 2 <= 2 * nmx x g + nstl x g) /\
+  (forall t g, t < nthr (nbase x) -> In g (FqN (nbase x) t) \/ In g (SqN (nbase x) t) ->
+     cntT (nbase x) t <= nmx x g) /\
+  (forall g, fstt (nbase x) g = 5%Z \/
+             (Qcn (dq (nbase x)) (nthr (nbase x)) g = 0 /\ ~ poppedN (nbase x) g) -> nbyp x g = 0).
+Proof.
+  intros Hp R. destruct (nreach_inv N own progs x Hp R) as [I [HT HA HZ]].
+  split; [intros g; split; [apply HA|apply (nmx_le N own progs x g Hp R)]|].
+  split; [intros t g Ht Hg; pose proof (gS _ _ _ _ _ _ _ (HT t Ht) g Hg); lia|].
+  split; [intros t p g Ht Hg; pose proof (gF _ _ _ _ _ _ _ (HT t Ht) p g Hg); lia|].
+  split; [intros t g Ht Hg; apply (gC _ _ _ _ _ _ _ (HT t Ht) g Hg)|exact HZ].
+Qed.
+
+(* a steal: the thief u holds the stolen fiber f in the local of PL2; f is in no
+   deque, its counters restart, and u's next step puts it at the head (bottom) of
+   u's schedule_from deque: u's next() returns it next, unless load_balance
+   pushes further stolen fibers in front of it in the same call *)
+Lemma stolen_on_thief N own progs x u k i lc rc ms f :
+  progs_ok N own progs -> nreach true progs x -> u < nthr (nbase x) ->
+  pc (thr (nbase x) u) = PL2 k i lc rc ms f ->
+  Qcn (dq (nbase x)) (nthr (nbase x)) f = 0 /\ nbyp x f = 0 /\
+  dq (fst (step (nbase x) u)) (sfrom (nbase x) u) = f :: dq (nbase x) (sfrom (nbase x) u) /\
+  sfrom (fst (step (nbase x) u)) u = sfrom (nbase x) u.
+Proof.
+  intros Hp R Hu Hpc. destruct (nreach_inv N own progs x Hp R) as [I G].
+  assert (Hin : In f (held (thr (nbase x) u))) by (unfold held; rewrite Hpc; left; reflexivity).
+  split.
+  { apply cnt_In in Hin. pose proof (Hcn_term (thr (nbase x)) (nthr (nbase x)) u f Hu).
+    pose proof (n_once N _ f (m_fib N own _ I f)). lia. }
+  split.
+  { apply (held_byp0 N own x u I G Hu f Hin). unfold popT. rewrite Hpc. discriminate. }
+  split.
+  { apply (own_lb2 N own x u I Hu k i lc rc ms f Hpc). }
+  apply (sf_same x u). intros ? ? ? E. congruence.
+Qed.
+
+(* the step in which f is stolen resets its counters and leaves the thief at PL2 .. f *)
+Lemma steal_resets x u f : stolen (nbase x) (fst (step (nbase x) u)) u = Some f ->
+  nbyp (nstep x u) f = 0 /\ nstl (nstep x u) f = 0 /\ nmx (nstep x u) f = 0 /\
+  exists k i a b c, pc (thr (nbase (nstep x u)) u) = PL2 k i a b c f.
+Proof.
+  intros Hs. unfold nstep; cbn [nbyp nstl nmx nbase]. rewrite Hs. cbn [is_some_eq]. rewrite Nat.eqb_refl, orb_true_r.
+  repeat split; auto. unfold stolen in Hs.
+  destruct (pc (thr (nbase x) u)); try discriminate;
+    destruct (pc (thr (fst (step (nbase x) u)) u)); try discriminate; inversion Hs; subst; eauto 10.
+Qed.
+
+(* ---------------- witnesses ---------------- *)
+(* Without the allowance nstl the per-thread bound is false on the model (and on
+   the real code under the harness, same trace): the harness lets a running fiber
+   call load_balance at any time.  Thread 0 holds fiber 1 on its filling deque;
+   fibers 2 and 3 alternate: the one running on thread 0 steals the other from
+   thread 1 (it lands in front of thread 0's draining deque, which is therefore
+   never empty when next() is called, so no swap), then blocks; thread 1 wakes it. *)
+Definition wit_p0 : list op := [OSpawn 2; OIdle; OSpawn 1] ++ flat_map (fun _ => [OBalance; OBlock]) (seq 0 6).
+Definition wit_p1 : list op := [OSpawn 3; OWake 2; OWake 3; OWake 2; OWake 3; OWake 2].
+Definition wit_sch : list nat :=
+  repeat 0 16 ++ repeat 1 3 ++ flat_map (fun _ => repeat 0 10 ++ repeat 1 3) (seq 0 5) ++ repeat 0 10.
+Definition wit_own (f : nat) : nat := if Nat.eqb f 3 then 1 else 0.
+
+Lemma wit_progs_ok : progs_ok 3 wit_own [wit_p0; wit_p1].
+Proof.
+  intros t Ht f Hf. cbn [length] in Ht.
+  destruct t as [|[|t]]; [| |lia]; cbn in Hf;
+    repeat (destruct Hf as [Hf|Hf]; [try discriminate Hf; inversion Hf; subst; cbn; split; auto with arith|]);
+    destruct Hf.
+Qed.
+
+Lemma bypass_unconditional_witness :
+  let x := nrun (ninit true [wit_p0; wit_p1]) wit_sch in
+  pc (thr (nbase x) 0) = Fin /\ pc (thr (nbase x) 1) = Fin /\
+  fstt (nbase x) 1 = 2%Z /\ SqN (nbase x) 0 = [1] /\ FqN (nbase x) 0 = [] /\
+  nbyp x 1 = 6 /\ nmx x 1 = 3 /\ nstl x 1 = 6 /\ 2 * (nmx x 1 - 1) < nbyp x 1.
+Proof. vm_compute. repeat split; try reflexivity; lia. Qed.
+
+(* a steal actually happens: after 19 steps of the witness run thread 0 has just
+   stolen fiber 3 from thread 1's deque 4 *)
+Lemma steal_example :
+  let x := nrun (ninit true [wit_p0; wit_p1]) (firstn 19 wit_sch) in
+  let y := nrun x [0] in
+  dq (nbase x) 4 = [3] /\ stolen (nbase x) (nbase y) 0 = Some 3 /\ dq (nbase y) 4 = [] /\
+  (exists k i a b c, pc (thr (nbase y) 0) = PL2 k i a b c 3) /\
+  FqN (nbase (nrun y [0])) 0 = [3] /\ placesN (nbase y) = [3; 2; 1].
+Proof. vm_compute. repeat split; try reflexivity; eauto 10. Qed.
